@@ -10,7 +10,8 @@ ASSUMPTIONS = [
     'C06: the file system is harness/fakefs.py (files = byte strings, every open-for-write/write/truncate/close/remove numbered); '
     'gzip is modelled as framing (header at open, payload verbatim, trailer at close) because deflate is C',
     'C06: single-fault model: exactly one numbered operation raises OSError, later operations (the rollback) succeed; a kill is modelled at '
-    'operation granularity plus a torn write (a symbolic-length prefix of the data of the interrupted write reaches the file); '
+    'operation granularity; in kill mode file objects buffer (data reaches the file at flush/close) and at the kill instant every open file '
+    'receives a symbolic-length prefix (0, 1, 2 bytes or all) of its unflushed data; '
     'OS page-cache / fsync durability is outside the claim',
     'C06: an I/O error injected into the unlink of the journal itself cannot leave "no journal" by any implementation; for that '
     'operation the harness requires the crash-safe state instead (journal naming the pre-append length, old bytes intact)',
@@ -107,12 +108,12 @@ def _io_error_rollback(old, existed, block, fault_at, compress):
     return fs.files.get(name) == full and jn not in fs.files
 
 
-def _kill_leaves_journal(old, existed, block, kill_at, torn, compress):
+def _kill_leaves_journal(old, existed, block, kill_at, torn, compress, torn_all=3):
     name = 'x.warc.gz' if compress else 'x.warc'
     if not existed:
         old = b''
     full, nops = _full_append(old, existed, block, compress, name)
-    fs = fakefs.FS(kill_at=kill_at, torn=torn)
+    fs = fakefs.FS(kill_at=kill_at, torn=torn, torn_all=torn_all)
     if existed:
         fs.files[name] = old
     rec = _recorder(fs, compress, name)
@@ -167,8 +168,8 @@ HARNESSES = [
       doc='for every numbered I/O operation of an append at which an OSError is injected: the archive equals its pre-append bytes '
           '(content compared, bytes symbolic) and no journal remains'),
     H('kill_leaves_journal', '_kill_leaves_journal', 'old: bytes, existed: bool, block: bytes, kill_at: int, torn: int, compress: bool',
-      pre={'quick': ['len(old) <= 2 and len(block) <= 1 and 1 <= kill_at <= %d and 0 <= torn <= 2' % _OPS],
-           'thorough': ['len(old) <= 5 and len(block) <= 3 and 1 <= kill_at <= %d and 0 <= torn <= 40' % _OPS]},
+      pre={'quick': ['len(old) <= 2 and len(block) <= 1 and 1 <= kill_at <= %d and 0 <= torn <= 3' % _OPS],
+           'thorough': ['len(old) <= 5 and len(block) <= 3 and 1 <= kill_at <= %d and 0 <= torn <= 3' % _OPS]},
       parts=[{'tag': t + e, 'fix': {'compress': c, 'existed': x}} for t, c in (('plain', 'False'), ('gzip', 'True'))
              for e, x in (('_new', 'False'), ('_append', 'True'))],
       timeout={'quick': 200, 'thorough': 900},
